@@ -86,6 +86,9 @@ pub fn classify_failure(
         // resource X uses from another provider (or from the implicit import)
         return Some("instantiation-arguments-mix-resource-providers");
     }
+    if !_define && msg.contains("instance not valid to be used as export") && lib_uses_alias_of_named(lib) {
+        return Some("imported-dependency-type:alias-type-re-encoded-structurally");
+    }
     if msg.contains("instance not valid to be used as export") {
         // an exported instance (alias of an instance export, or a whole instantiation) whose
         // interface uses a type that has no name at the root of the composition
@@ -119,14 +122,32 @@ pub fn lib_has_cross_interface_resource_use(lib: &witgen::Library) -> bool {
 }
 
 /// Attributes an encode panic to a known cause (model-based), returning a signature suffix.
-fn classify_panic(file: &str, message: &str, _define: bool, lib: Option<&witgen::Library>) -> String {
+fn classify_panic(file: &str, message: &str, define: bool, lib: Option<&witgen::Library>) -> String {
     let Some(lib) = lib else { return String::new() };
-    if file == "encoding.rs" && message.contains("no entry found for key") && lib_has_cross_interface_resource_use(lib) {
-        // a type that mentions a resource of another interface is re-encoded structurally in a
-        // scope where that resource is not available (e.g. `type a = b` with `b` a used type)
-        return ":used-type-mentioning-a-resource-re-encoded-out-of-scope".into();
+    if !define && file == "encoding.rs" && message.contains("no entry found for key") && lib_uses_alias_of_named(lib) {
+        // same root cause as the invalid instance type: the alias is re-encoded structurally, and
+        // when its definition mentions a resource that is not in scope the encoder panics
+        return ":imported-dependency-type:alias-type-re-encoded-structurally".into();
     }
     String::new()
+}
+
+/// Whether some interface re-exports a used type through `type a = b`, or `use`s a type that is
+/// itself such an alias of a named type (generator's / witness' model).
+pub fn lib_uses_alias_of_named(lib: &witgen::Library) -> bool {
+    use witgen::{Ty, TypeDef};
+    lib.pkgs.iter().any(|p| {
+        p.ifaces.iter().any(|i| {
+            i.types.iter().any(|(_, d)| match d {
+                TypeDef::Alias(Ty::Named(n)) => i.uses.iter().any(|u| u.as_name.as_ref().unwrap_or(&u.name) == n),
+                _ => false,
+            }) || i.uses.iter().any(|u| {
+                witgen::find_iface(&lib.pkgs, &u.source_id)
+                    .map(|src| src.types.iter().any(|(n, d)| *n == u.name && matches!(d, TypeDef::Alias(Ty::Named(_)))))
+                    .unwrap_or(false)
+            })
+        })
+    })
 }
 
 fn ty_mentions_resource(pkgs: &[witgen::Pkg], iface: &witgen::Iface, t: &witgen::Ty, depth: usize) -> bool {
